@@ -81,6 +81,25 @@ func TestVerifC13Handshake(t *testing.T) {
 			}
 		}
 	}
+	// version negotiation: a forged Version Negotiation packet that follows the genuine one (aimed at the
+	// re-created connection, before the server's first reply) must be ignored
+	for _, cl := range []string{"plain", "unil"} {
+		for _, inj := range []string{"vn", "vn-listing-offered"} {
+			cases = append(cases, c13Case{Name: fmt.Sprintf("inject/vneg/%s/%s/after-genuine-vn", cl, inj), Scenario: "vneg", Client: cl, Inject: inj, When: "after-genuine-vn"})
+			cases = append(cases, c13Case{Name: fmt.Sprintf("inject+loss/vneg/%s/%s/after-genuine-vn/s2c-o1", cl, inj), Scenario: "vneg", Client: cl, Inject: inj, When: "after-genuine-vn",
+				Sched: simworld.Schedule{Faults: []simworld.Fault{{Dir: wiretap.S2C, Ordinal: 1, Action: simworld.Action{Kind: "drop"}}}}})
+		}
+	}
+	for _, sc := range scen {
+		// UTransport without a spec through every scenario (fault-free and with single drops)
+		cases = append(cases, c13Case{Name: fmt.Sprintf("clean/%s/unil", sc), Scenario: sc, Client: "unil"})
+		for d := 0; d < 2; d++ {
+			for o := 0; o < l.Pick(3, 8); o++ {
+				cases = append(cases, c13Case{Name: fmt.Sprintf("k1/%s/unil/d%d-o%d-drop", sc, d, o), Scenario: sc, Client: "unil",
+					Sched: simworld.Schedule{Faults: []simworld.Fault{{Dir: wiretap.Dir(d), Ordinal: o, Action: simworld.Action{Kind: "drop"}}}}})
+			}
+		}
+	}
 	if l.Thorough() {
 		rng := l.Rand("c13k2")
 		for i := 0; i < 40000; i++ {
@@ -143,7 +162,9 @@ func runC13(l *evlog.Log, c *evlog.Case, cs *c13Case, idx int) {
 		opt.Early = true
 		sconf.Allow0RTT = cs.Scenario != "resume"
 	}
-	if cs.Client != "plain" {
+	if cs.Client == "unil" {
+		opt.ClientKind = "unil"
+	} else if cs.Client != "plain" {
 		spec, err := quic.QUICID2Spec(quicworld.QUICIDs[cs.Client])
 		if err != nil {
 			viol("harness", "QUICID2Spec: %v", err)
@@ -170,16 +191,52 @@ func runC13(l *evlog.Log, c *evlog.Case, cs *c13Case, idx int) {
 	var imu sync.Mutex
 	injected := false
 	genuineProcessed := false
+	genuineVN := false
+	oldSCIDs := map[string]bool{}
 	clientSentHandshake := false // the client discards its Initial keys when it first sends a Handshake packet
 	injectedAfterHandshakePkt := false
 	forgedToken := []byte("forged-retry-token-0123456789")
 	if cs.Inject != "" {
 		w.Router.SetOnEmit(func(d *wiretap.DatagramInfo) *simworld.Action {
-			if d.Dir != wiretap.C2S || d.Conn == nil {
+			if d.Dir == wiretap.S2C {
+				for _, p := range d.Packets {
+					if p.Kind == wiretap.KindVN {
+						imu.Lock()
+						genuineVN = true
+						imu.Unlock()
+					}
+				}
+				return nil
+			}
+			if d.Conn == nil {
 				return nil
 			}
 			imu.Lock()
 			defer imu.Unlock()
+			if cs.When == "after-genuine-vn" {
+				// the first Initial of the re-created connection: the old connection keeps its source
+				// connection ID and answers with a CONNECTION_CLOSE in the old version, so the new one
+				// is recognised by a source connection ID that was not seen before the genuine packet
+				if len(d.Packets) == 0 || d.Packets[0].Kind != wiretap.KindInitial {
+					return nil
+				}
+				first := d.Packets[0]
+				if !genuineVN {
+					oldSCIDs[string(first.SCID)] = true
+					return nil
+				}
+				if injected || oldSCIDs[string(first.SCID)] {
+					return nil
+				}
+				vers := []uint32{0x1a2a3a4a, 0xff00001d}
+				if cs.Inject == "vn-listing-offered" {
+					vers = []uint32{0x1a2a3a4a, first.Version}
+				}
+				injected = true
+				injectedAfterHandshakePkt = true
+				w.Router.Inject(wiretap.S2C, quicworld.ServerAddr, quicworld.ClientAddr, wiretap.VersionNegotiation(first.DCID, first.SCID, vers), time.Millisecond)
+				return nil
+			}
 			// the client has processed a genuine server packet once it acknowledges one or sends Handshake packets
 			for _, p := range d.Packets {
 				if p.Kind == wiretap.KindHandshake {
@@ -467,7 +524,7 @@ func runC13(l *evlog.Log, c *evlog.Case, cs *c13Case, idx int) {
 		// must have no effect.  In every other case the outcome must be "clean failure" or the same agreement
 		// (checked above), which is all the property promises.
 		isInitial := cs.Inject == "initial-close" || cs.Inject == "initial-garbage" || cs.Inject == "initial-other-scid"
-		mustNotMatter := cs.Inject == "retry-badtag" || cs.Inject == "retry-wrong-odcid" || (cs.When == "after" && (!isInitial || afterHS))
+		mustNotMatter := cs.Inject == "retry-badtag" || cs.Inject == "retry-wrong-odcid" || (cs.When == "after" && (!isInitial || afterHS)) || cs.When == "after-genuine-vn"
 		if mustNotMatter {
 			l.Count("injections_that_must_not_matter", 1)
 		}
